@@ -18,6 +18,8 @@ static std::string fmt(const char *f, ...)
   return b;
 }
 
+static const Transmission *current_tx_at_read(const World &w, const Packet &p); // defined with the C17 oracle
+
 static std::string norm_name(std::string n)
 {
   n = vdns::lower(n);
@@ -53,6 +55,14 @@ void oracle_c05_provenance(World &w, const History &)
           if (l.find(key) != std::string::npos) {
             for (int i = 0; i < FG_NKINDS; i++)
               if (l.find(std::string(" ") + fg_names[i] + " ") != std::string::npos) mut = fg_names[i];
+          }
+        }
+        if (!strcmp(mut, "nocookie") || !strcmp(mut, "badclientcookie")) {
+          // only a forgery if the transmission it is matched against carries a cookie (see the gating in the explorer)
+          const Transmission *cur = current_tx_at_read(w, *p);
+          if (cur && !cur->q.has_cookie) {
+            w.W("c05_cookie_forgery_not_applicable");
+            continue;
           }
         }
         w.violate(std::string("C05:provenance:forged-packet-accepted:") + mut,
